@@ -99,7 +99,7 @@ def c04() -> List[V]:
           "        for cache in vars(self).values():\n            if isinstance(cache, IndexedCache):\n                cache.clear()",
           "        self._cache_.clear()", rule="COVERAGE-AFTER-COMPLETION"),
         V("selector-state-not-reset", "conclusion_selector", "ConclusionSelector._reset_only_my_cache_",
-          "        self.concluded_before = {True: SeenSet(), False: SeenSet()}\n", "", rule="EVAL-STATE-RESET"),
+          "        self.concluded_before = {True: {}, False: {}}\n", "", rule="EVAL-STATE-RESET"),
         V("selector-conclusions-not-reset", "conclusion_selector", "ConclusionSelector._reset_only_my_cache_",
           "        self._conclusion_.clear()\n", "", rule="EVAL-STATE-RESET"),
         V("dedup-state-not-reset", S, "SymbolicExpression._reset_only_my_cache_", "        self._seen_parent_values_by_parent_ = {}\n", "",
@@ -261,10 +261,14 @@ def c14() -> List[V]:
 
 def c17() -> List[V]:
     return [
-        V("row-per-binding", S, "Concatenate._evaluate__", "        yield {k: HashedValue(v) for k, v in all_values.items()}",
-          "            yield {k: HashedValue(v) for k, v in all_values.items()}", rule="CONCAT-ONCE"),
-        V("no-row-when-empty", S, "Concatenate._evaluate__", "        yield {k: HashedValue(v) for k, v in all_values.items()}",
-          "        if all_values:\n            yield {k: HashedValue(v) for k, v in all_values.items()}", rule="CONCAT-ONCE"),
+        V("row-per-binding", S, "Concatenate._evaluate__", "        result = {k: HashedValue(v) for k, v in all_values.items()}\n        result.update(sources)\n        yield result",
+          "            result = {k: HashedValue(v) for k, v in all_values.items()}\n            result.update(sources)\n            yield result", rule="CONCAT-ONCE"),
+        V("no-row-when-empty", S, "Concatenate._evaluate__", "        result.update(sources)\n        yield result",
+          "        result.update(sources)\n        if all_values[self._id_]:\n            yield result", rule="CONCAT-ONCE"),
+        V("own-entry-created-in-the-loop-only", S, "Concatenate._evaluate__", "        all_values[self._id_] = []\n", "", rule="CONCAT-ONCE"),
+        V("incoming-bindings-aggregated", S, "Concatenate._evaluate__", "        result.update(sources)\n", "", rule="CONCAT-ONCE"),
+        V("twin-row-as-dict-display", S, "Concatenate._evaluate__", "        result = {k: HashedValue(v) for k, v in all_values.items()}\n        result.update(sources)\n        yield result",
+          "        yield {**{k: HashedValue(v) for k, v in all_values.items()}, **sources}", kind="twin"),
         V("dedup-accumulation", S, "Concatenate._evaluate__", "                    all_values[self._id_].extend(child_v_unwrapped)",
           "                    if child_v_unwrapped not in all_values[self._id_]:\n                        all_values[self._id_].extend(child_v_unwrapped)",
           rule="CONCAT-ONCE"),
@@ -738,8 +742,10 @@ def more_c19():
 
 def more_c20():
     return _cache_index() + [
-        V("stored-branch-tested-by-truthiness", CD, "IndexedCache.retrieve", "            if next_cache is None:\n", "            if not next_cache:\n", rule="NONE-TEST"),
-        V("wildcard-tested-by-truthiness", CD, "IndexedCache.retrieve", "            wildcard = cache.get(All)\n            if wildcard is not None:\n                yield from self._yield_result(assignment, wildcard, key_idx, result)\n            else:\n                # Explore",
+        V("stored-branch-tested-by-truthiness", CD, "IndexedCache.retrieve", "            if assignment[key] not in cache:\n", "            if not cache.get(assignment[key]):\n", rule="NONE-TEST"),
+        V("stored-branch-read-with-get", CD, "IndexedCache.retrieve", "            if assignment[key] not in cache:\n",
+          "            next_cache = cache.get(assignment[key])\n            if next_cache is None:\n", rule="NONE-TEST"),
+        V("wildcard-tested-by-truthiness", CD, "IndexedCache.retrieve", "            if All in cache:\n                yield from self._yield_result(assignment, cache[All], key_idx, result)\n            else:\n                # Explore",
           "            wildcard = cache.get(All)\n            if wildcard:\n                yield from self._yield_result(assignment, wildcard, key_idx, result)\n            else:\n                # Explore", rule="NONE-TEST"),
         V("leaf-kept-on-reinsert", CD, "IndexedCache.insert", "                cache[v] = output", "                cache.setdefault(v, output)", rule="LEAF-OVERWRITE"),
         V("twin-intermediate-level-by-membership", CD, "IndexedCache.insert", "                next_cache = cache.get(v)\n                if next_cache is None:\n                    next_cache = CacheDict()\n                    cache[v] = next_cache\n                cache = next_cache",
